@@ -48,6 +48,18 @@ P = {
         tech=TECH + 'grammar induction lemmas over the splitter transition code', ref='5 C17'),
 }
 
+P['C20'] = dict(
+    text='Proof of the frame, reset and lock-discipline obligations that make call history and schedules irrelevant: '
+         'for every function reachable from parse/parsestream/split/format (name-based call graph over the real AST) '
+         'no write goes through a closure variable, module global, class name or cls, except cls._default_instance '
+         'inside `with cls._lock`; the lexer read path (get_tokens, is_keyword, tokenize) never stores to the shared '
+         'lexer; no class-level containers/instances, no mutable defaults, no lazily created token types; monitor '
+         'obligations on get_default_instance; default_initialization re-establishes the same configuration from any '
+         'state. Thread schedules are not enumerated in this family; a bounded history/thread stand-in runs beside it.',
+    note='Trusted: the syntactic write-set analysis (aliasing through parameters not tracked), GIL atomicity of '
+         'attribute access, thread safety of compiled re patterns, the scheduler.',
+    tech=TECH + 'frame/effects obligations decided structurally over the AST', ref='5 C20')
+
 NA = {
     'C16': 'no contract on a function of /repo can express a bound on the running time of CPython\'s _sre matcher; '
            'deciding exponential ambiguity of a regex is an automata-theoretic analysis and timing pump strings is '
